@@ -117,6 +117,22 @@ func checkGuards(r *Reporter, p *Prog, rule string, rows []GuardRow) {
 		row      *GuardRow
 		mode     LockMode
 		recvOnly bool
+		chain    string // the mutex relative to the function's receiver (".mutex", or ".inner.mutex" for a method of an embedding type)
+	}
+	// caller-holds helpers that are methods of a type EMBEDDING the guarded type: "Recv.method" -> what
+	// the caller must hold, relative to the receiver
+	type embCH struct {
+		row   *GuardRow
+		mode  LockMode
+		chain string
+	}
+	ech := map[string]embCH{}
+	// recvRel: is `want` a mutex reached from the function's own receiver through fields? (chain, ok)
+	recvRel := func(want, recvPath, mutex string) (string, bool) {
+		if recvPath == "" || !strings.HasPrefix(want, recvPath+".") || !strings.HasSuffix(want, "."+mutex) {
+			return "", false
+		}
+		return want[len(recvPath):], true
 	}
 	var needs map[string]*fnNeed          // funcKey -> unprotected receiver accesses
 	var callSites map[string]int          // "Type.method" -> direct call sites seen
@@ -156,6 +172,9 @@ func checkGuards(r *Reporter, p *Prog, rule string, rows []GuardRow) {
 							entry = entry.with(recvPath+"."+row.Mutex, m)
 						}
 					}
+				}
+				if e, ok := ech[recvT+"."+fd.Name.Name]; ok && recvPath != "" {
+					entry = entry.with(recvPath+e.chain, e.mode)
 				}
 				// conditional-lock idiom (GuardRow.CondLock): function-like scopes (the declaration or
 				// a function literal) that take the mutex under a tabled condition
@@ -261,6 +280,43 @@ func checkGuards(r *Reporter, p *Prog, rule string, rows []GuardRow) {
 							}
 						}
 					}
+					if e, isEmb := ech[rt.Obj().Name()+"."+fn.Name()]; isEmb && !seen[x] {
+						seen[x] = true
+						k := aggKey{fkey, rt.Obj().Name() + "." + fn.Name() + "()", "CH-" + e.mode.String()}
+						a := aggs[k]
+						if a == nil {
+							a = &agg{first: p.posStr(x.Pos())}
+							aggs[k] = a
+						}
+						a.n++
+						if ro := rootObj(info, se.X); ro != nil && fresh[ro] {
+							return
+						}
+						base, okp := pathOf(info, se.X)
+						if !okp {
+							a.bad = append(a.bad, fmt.Sprintf("%s: receiver of caller-holds helper is not an access path", p.posStr(x.Pos())))
+							return
+						}
+						base += embeddedChain(sel, len(sel.Index())-1)
+						want := base + e.chain
+						if held[want] < e.mode && !condLocked(x.Pos(), want) {
+							fnN := needs[fkey]
+							if fnN == nil {
+								fnN = &fnNeed{row: e.row, recvOnly: true}
+								needs[fkey] = fnN
+							}
+							if e.mode > fnN.mode {
+								fnN.mode = e.mode
+							}
+							if chain, rel := recvRel(want, recvPath, e.row.Mutex); !rel || fnN.row.Mutex != e.row.Mutex || fnN.row.Pkg != e.row.Pkg || (fnN.chain != "" && fnN.chain != chain) {
+								fnN.recvOnly = false
+							} else {
+								fnN.chain = chain
+							}
+							a.bad = append(a.bad, fmt.Sprintf("%s: call of caller-holds helper %s needs %s held %s, held: %s", p.posStr(x.Pos()), fn.Name(), displayPath(want), e.mode, held))
+						}
+						return
+					}
 					for i := range rows {
 						row := &rows[i]
 						if fullPath(row.Pkg) != rt.Obj().Pkg().Path() || (row.Type != rt.Obj().Name() && row.ViaRecvType != rt.Obj().Name()) {
@@ -309,8 +365,10 @@ func checkGuards(r *Reporter, p *Prog, rule string, rows []GuardRow) {
 							if need > fnN.mode {
 								fnN.mode = need
 							}
-							if recvPath == "" || want != recvPath+"."+row.Mutex || (recvT != row.Type && recvT != row.ViaRecvType) || fnN.row.Mutex != row.Mutex || fnN.row.Pkg != row.Pkg {
+							if chain, rel := recvRel(want, recvPath, row.Mutex); !rel || (chain == "."+row.Mutex && recvT != row.Type && recvT != row.ViaRecvType) || fnN.row.Mutex != row.Mutex || fnN.row.Pkg != row.Pkg || (fnN.chain != "" && fnN.chain != chain) {
 								fnN.recvOnly = false
+							} else {
+								fnN.chain = chain
 							}
 							a.bad = append(a.bad, fmt.Sprintf("%s: call of caller-holds helper %s needs %s held %s, held: %s", p.posStr(x.Pos()), fn.Name(), displayPath(want), need, held))
 						}
@@ -400,8 +458,10 @@ func checkGuards(r *Reporter, p *Prog, rule string, rows []GuardRow) {
 						if need > fnN.mode {
 							fnN.mode = need
 						}
-						if recvPath == "" || want != recvPath+"."+gf.row.Mutex || (recvT != gf.row.Type && recvT != gf.row.ViaRecvType) || fnN.row.Mutex != gf.row.Mutex || fnN.row.Pkg != gf.row.Pkg {
+						if chain, rel := recvRel(want, recvPath, gf.row.Mutex); !rel || (chain == "."+gf.row.Mutex && recvT != gf.row.Type && recvT != gf.row.ViaRecvType) || fnN.row.Mutex != gf.row.Mutex || fnN.row.Pkg != gf.row.Pkg || (fnN.chain != "" && fnN.chain != chain) {
 							fnN.recvOnly = false
+						} else {
+							fnN.chain = chain
 						}
 					}
 				}
@@ -512,8 +572,16 @@ func checkGuards(r *Reporter, p *Prog, rule string, rows []GuardRow) {
 			if escapes[mk] != "" || callSites[mk] == 0 {
 				continue
 			}
-			// the helper holds for every row of this receiver type that is guarded by the same mutex
 			rt := recvTypeName(fd)
+			if fnN.chain != "" && fnN.chain != "."+fnN.row.Mutex {
+				// a method of a type that embeds the guarded type
+				if cur, ok := ech[mk]; !ok || cur.mode < fnN.mode {
+					ech[mk] = embCH{fnN.row, fnN.mode, fnN.chain}
+					changed = true
+				}
+				continue
+			}
+			// the helper holds for every row of this receiver type that is guarded by the same mutex
 			for i := range rows {
 				row := &rows[i]
 				if row.Pkg != fnN.row.Pkg || row.Mutex != fnN.row.Mutex || (row.Type != rt && row.ViaRecvType != rt) {
